@@ -106,6 +106,28 @@ func TestDrv_CmdLoop(t *testing.T) {
 			ops = append(ops, map[string]any{"op": "encode", "files": []string{c.fifo}, "output": c.out, "to": c.to.name})
 		}
 	}
+	// encode over a regular file and a named pipe together (the second one written by another process): every record of both
+	for _, n := range []int{8, 60} {
+		c := &lcase{kind: "encode", n: n, in: codecs[r.Intn(3)], to: codecs[r.Intn(3)], signalMs: -3}
+		var a []vegeta.Result
+		for i := 0; i < n; i++ {
+			res := vegeta.Result{Attack: "cl", Seq: uint64(i), Code: 200, Timestamp: time.Unix(1700000000, int64(i)*1e6), Latency: time.Duration(i+1) * time.Millisecond,
+				Body: []byte(fmt.Sprint("b", i))}
+			c.rs = append(c.rs, res)
+			if i%2 == 0 {
+				a = append(a, res)
+			}
+		}
+		k := len(cs)
+		c.out = filepath.Join(dir, fmt.Sprintf("cl%d.out", k))
+		c.fifo = filepath.Join(dir, fmt.Sprintf("cl%d.fifo", k))
+		must(syscall.Mkfifo(c.fifo, 0o600))
+		data, _ := encodeAll(c.in, a)
+		reg := filepath.Join(dir, fmt.Sprintf("cl%d.regular", k))
+		must(os.WriteFile(reg, data, 0o644))
+		cs = append(cs, c)
+		ops = append(ops, map[string]any{"op": "encode", "files": []string{reg, c.fifo}, "output": c.out, "to": c.to.name})
+	}
 	// plot over two regular files in different encodings (the results of one attack split between them): every result once
 	for _, n := range []int{7, 60} {
 		c := &lcase{kind: "plot", n: n, in: codecs[0], to: codecs[0], signalMs: -2}
@@ -133,7 +155,7 @@ func TestDrv_CmdLoop(t *testing.T) {
 	}
 	for _, c := range cs {
 		c := c
-		if c.signalMs < 0 {
+		if c.signalMs < 0 && c.signalMs != -3 {
 			continue // a regular file, nothing to feed
 		}
 		seed := r.Int63()
@@ -145,10 +167,17 @@ func TestDrv_CmdLoop(t *testing.T) {
 			}
 			defer w.Close()
 			enc := c.in.enc(w)
-			for i := 0; i < len(c.rs); {
-				burst := 1 + fr.Intn(1+len(c.rs)/4)
-				for j := 0; j < burst && i < len(c.rs); j, i = j+1, i+1 {
-					if enc.Encode(&c.rs[i]) != nil {
+			feed := c.rs
+			if c.signalMs == -3 { // the pipe carries the odd-numbered records, the regular file next to it the even ones
+				feed = nil
+				for i := 1; i < len(c.rs); i += 2 {
+					feed = append(feed, c.rs[i])
+				}
+			}
+			for i := 0; i < len(feed); {
+				burst := 1 + fr.Intn(1+len(feed)/4)
+				for j := 0; j < burst && i < len(feed); j, i = j+1, i+1 {
+					if enc.Encode(&feed[i]) != nil {
 						return // the reader went away (interrupted run)
 					}
 				}
